@@ -125,6 +125,8 @@ theorem mkObj_inv {c : Cfg} (hc : c.BootGood) {k : Kernel} {ps : Ps} (hk : KInv 
   cases hf : k.find pid with
   | none => exact ⟨rfl, rfl⟩
   | some x =>
+    dsimp only
+    rw [if_neg (by simp [isHidden_false hk.nohide])]
     obtain ⟨hp, hobjs, hbt, hnz, hkeep⟩ := bootForCreate_inv hc hk.btime h
     refine ⟨⟨hp.boot_nz, ?_, ?_⟩, hobjs, rfl, by simp [Kernel.owner, hf], rfl, rfl,
       (bootForCreate_pmap c k ps).1, hkeep⟩
@@ -133,7 +135,7 @@ theorem mkObj_inv {c : Cfg} (hc : c.BootGood) {k : Kernel} {ps : Ps} (hk : KInv 
       · exact hp.objs o hm
       · simp only [List.mem_singleton] at hm
         subst hm
-        exact ⟨_, hbt, ⟨hk.find_lt hf, rfl, fun hd => by simp at hd⟩⟩
+        exact ⟨_, hbt, ⟨hk.find_lt hf, rfl, rfl, fun hd => by simp at hd, hk.nohide⟩⟩
     · intro e he
       obtain ⟨x', hx', hxp⟩ := hp.pmap e he
       have hlt : e.2 < (bootForCreate c k ps).1.objs.length := by
@@ -175,7 +177,11 @@ theorem mkObj_shape (c : Cfg) (k : Kernel) (ps : Ps) (pid : Nat) :
   cases hf : k.find pid with
   | none => exact ⟨rfl, rfl⟩
   | some x =>
-    exact ⟨(bootForCreate_pmap c k ps).2, (bootForCreate_pmap c k ps).1, rfl, by simp [Kernel.owner, hf], rfl, rfl⟩
+    dsimp only
+    by_cases hh : k.isHidden pid = true
+    · rw [if_pos hh]; exact ⟨rfl, rfl, rfl, by simp [Kernel.owner, hf], rfl, rfl⟩
+    · rw [if_neg hh]
+      exact ⟨(bootForCreate_pmap c k ps).2, (bootForCreate_pmap c k ps).1, rfl, by simp [Kernel.owner, hf], rfl, rfl⟩
 
 theorem iterLoop_cons (c : Cfg) (k : Kernel) (kept : List (Nat × Nat)) (evicted : List Nat) (ps : Ps)
     (p : Nat) (rest : List Nat) :
@@ -321,7 +327,7 @@ theorem method_inv {c : Cfg} (hc : c.BootGood) {s : St} (h : Inv c.clk s) {call 
 theorem step_inv {c : Cfg} (hc : c.BootGood) (s : St) (ev : Ev) (hev : ev.OK) (h : Inv c.clk s) :
     Inv c.clk (step c s ev).1 := by
   cases ev with
-  | k e => exact ⟨h.kern.apply e hev, h.ps.apply e⟩
+  | k e => exact ⟨h.kern.apply e hev, h.ps.apply e hev⟩
   | c call =>
     cases htg : call.target with
     | some i =>
@@ -358,7 +364,7 @@ theorem run_inv {c : Cfg} (hc : c.BootGood) (h : List Ev) : ∀ (s : St), HistOK
     exact ih _ (fun x hx => hok x (List.mem_cons_of_mem _ hx)) (step_inv hc s e (hok e List.mem_cons_self) hi)
 
 theorem init_inv (clk : Nat) {b : Nat} (hb : b ≠ 0) : Inv clk (St.init b) :=
-  ⟨⟨by simp [St.init], fun x hx => by simp [St.init] at hx, hb⟩,
+  ⟨⟨by simp [St.init], fun x hx => by simp [St.init] at hx, hb, rfl⟩,
    ⟨fun B hB => by simp [St.init] at hB, fun o ho => by simp [St.init] at ho,
     fun e he => by simp [St.init] at he⟩⟩
 
